@@ -659,6 +659,106 @@ def rule_c11_pymodel(r):
             for d in fn.args.defaults + fn.args.kw_defaults:
                 if isinstance(d, (ast.List, ast.Dict, ast.Set)):
                     bad.append((d, "mutable default argument keeps state between calls"))
+            # the q arguments are the kernel's own persistent input arrays (PyInput.q is filled once per kernel and handed to the
+            # model by reference on every call): no in-place update of them, of a view of them, or of any array argument
+            order = [a.arg for a in fn.args.args]
+            qargs = set(order[:2] if fname == "Iqxy" else order[:1]) if fname in ("Iq", "Iqxy", "Fq") else set()
+            views = {p_: p_ for p_ in params}        # name -> parameter it may alias
+            VIEW_CALLS = ("asarray", "reshape", "ravel", "squeeze", "view", "transpose", "atleast_1d", "asanyarray")
+            for node in ast.walk(fn):
+                if isinstance(node, ast.Assign) and len(node.targets) == 1 and isinstance(node.targets[0], ast.Name):
+                    v = node.value
+                    src = None
+                    if isinstance(v, ast.Name):
+                        src = v.id
+                    elif isinstance(v, ast.Subscript) and isinstance(v.value, ast.Name) and isinstance(v.slice, (ast.Slice, ast.Tuple)):
+                        src = v.value.id
+                    elif isinstance(v, ast.Attribute) and v.attr == "T" and isinstance(v.value, ast.Name):
+                        src = v.value.id
+                    elif isinstance(v, ast.Call) and (pf.call_name(v) or "").split(".")[-1] in VIEW_CALLS:
+                        cand = ([v.func.value] if isinstance(v.func, ast.Attribute) else []) + list(v.args[:1])
+                        for c_ in cand:
+                            if isinstance(c_, ast.Name) and c_.id in views:
+                                src = c_.id
+                    if src in views and node.targets[0].id not in params:
+                        views[node.targets[0].id] = views[src]
+            INPLACE = ("sort", "fill", "resize", "put", "itemset", "partition", "clip")
+            for node in ast.walk(fn):
+                hit = None
+                if isinstance(node, ast.AugAssign):
+                    t = node.target
+                    root = t
+                    while isinstance(root, (ast.Subscript, ast.Attribute)):
+                        root = root.value
+                    if isinstance(root, ast.Name) and root.id in views:
+                        par = views[root.id]
+                        if par in qargs or isinstance(t, ast.Subscript):
+                            hit = par
+                elif isinstance(node, ast.Assign):
+                    for t in node.targets:
+                        if isinstance(t, ast.Subscript):
+                            root = t
+                            while isinstance(root, (ast.Subscript, ast.Attribute)):
+                                root = root.value
+                            if isinstance(root, ast.Name) and root.id in views:
+                                hit = views[root.id]
+                elif isinstance(node, ast.Call):
+                    for kw in node.keywords:
+                        if kw.arg == "out" and isinstance(kw.value, ast.Name) and kw.value.id in views:
+                            hit = views[kw.value.id]
+                    if isinstance(node.func, ast.Attribute) and node.func.attr in INPLACE and isinstance(node.func.value, ast.Name) \
+                            and node.func.value.id in views and (node.func.attr != "clip" or any(k.arg == "out" for k in node.keywords)):
+                        hit = views[node.func.value.id]
+                if hit:
+                    bad.append((node, "updates its argument `%s` in place: PyKernel hands the model its own persistent q array (and views "
+                                      "of the parameter vector) by reference, so the next evaluation of the same kernel starts from the "
+                                      "modified values" % hit))
+            # module-level mutable objects (sets, lists, dicts of the model file) are shared by every call: a local bound to
+            # one of them by plain assignment is the same object, so an in-place update through it persists
+            mglob = set()
+            for st_ in md.tree.body:
+                if isinstance(st_, ast.Assign) and len(st_.targets) == 1 and isinstance(st_.targets[0], ast.Name):
+                    v_ = st_.value
+                    if isinstance(v_, (ast.List, ast.Dict, ast.Set, ast.ListComp, ast.DictComp, ast.SetComp)) or \
+                            (isinstance(v_, ast.Call) and (pf.call_name(v_) or "").split(".")[-1] in
+                             ("set", "list", "dict", "OrderedDict", "defaultdict", "union", "copy", "array", "zeros", "ones", "empty")):
+                        mglob.add(st_.targets[0].id)
+            stored = {x.id for x in ast.walk(fn) if isinstance(x, ast.Name) and isinstance(x.ctx, ast.Store)} | params
+            declared = {n_ for g_ in ast.walk(fn) if isinstance(g_, ast.Global) for n_ in g_.names}
+            galias = {g_: g_ for g_ in mglob if g_ not in stored or g_ in declared}
+            # import-time set-up helpers (called from the module body, i.e. once per load of the file) may build the module's tables
+            init_time = any(isinstance(c_, ast.Call) and isinstance(c_.func, ast.Name) and c_.func.id == fname
+                            for st_ in md.tree.body if not isinstance(st_, (ast.FunctionDef, ast.ClassDef)) for c_ in ast.walk(st_))
+            if init_time:
+                galias = {}
+            for node in ast.walk(fn):
+                if isinstance(node, ast.Assign) and len(node.targets) == 1 and isinstance(node.targets[0], ast.Name) \
+                        and isinstance(node.value, ast.Name) and node.value.id in galias:
+                    galias[node.targets[0].id] = galias[node.value.id]
+            MUT = ("add", "update", "append", "extend", "insert", "pop", "remove", "discard", "clear", "sort", "reverse", "setdefault",
+                   "popitem", "difference_update", "intersection_update", "symmetric_difference_update")
+            for node in ast.walk(fn):
+                g_hit = None
+                if isinstance(node, ast.AugAssign):
+                    root = node.target
+                    while isinstance(root, (ast.Subscript, ast.Attribute)):
+                        root = root.value
+                    if isinstance(root, ast.Name) and root.id in galias:
+                        g_hit = galias[root.id]
+                elif isinstance(node, ast.Assign):
+                    for t in node.targets:
+                        if isinstance(t, ast.Subscript):
+                            root = t
+                            while isinstance(root, (ast.Subscript, ast.Attribute)):
+                                root = root.value
+                            if isinstance(root, ast.Name) and root.id in galias:
+                                g_hit = galias[root.id]
+                elif isinstance(node, ast.Call) and isinstance(node.func, ast.Attribute) and node.func.attr in MUT \
+                        and isinstance(node.func.value, ast.Name) and node.func.value.id in galias:
+                    g_hit = galias[node.func.value.id]
+                if g_hit:
+                    bad.append((node, "updates the module-level object `%s` in place (through a local bound to it): every later call, "
+                                      "in this and every other model instance, sees the accumulated value" % g_hit))
             for node, why in bad:
                 r.violation(md.relpath, fname, pf.unparse(node)[:70], getattr(node, "lineno", fn.lineno), why)
             if not bad:
@@ -933,6 +1033,16 @@ def rule_c18_owner(r):
 
     def sink_args(c):
         nm = pf.call_name(c) or ""
+        if nm.split(".")[-1] == "open" and nm in ("open", "io.open", "os.open", "codecs.open") and c.args:
+            mode = c.args[1] if len(c.args) > 1 else next((k.value for k in c.keywords if k.arg == "mode"), None)
+            mtxt = pf.unparse(mode) if mode is not None else "'r'"
+            if any(ch in mtxt for ch in "wax+") or "O_WRONLY" in mtxt or "O_RDWR" in mtxt or "O_CREAT" in mtxt or "O_TRUNC" in mtxt:
+                return [c.args[0]]
+            return None
+        if nm.split(".")[-1] in ("copy", "copy2", "copyfile", "copyfileobj") and nm.startswith("shutil") and len(c.args) > 1:
+            return [c.args[1]]
+        if nm.split(".")[-1] in ("write_bytes", "write_text") and isinstance(c.func, ast.Attribute):
+            return [c.func.value]
         if nm in _RM_SINKS:
             idx = _RM_SINKS[nm]
             return list(c.args) if idx is None else list(c.args[idx:idx + 1])
@@ -993,9 +1103,9 @@ def rule_c18_owner(r):
                     else:
                         r.check(not bad, mod.relpath, qual, "%s(%s)" % (how, ", ".join(pf.unparse(a) for a in args)[:70]), c.lineno,
                                 "not a cache path" if not bad else
-                                "removes/replaces the published library %s: another process that found it in the cache and has "
-                                "not yet opened it (loading is lazy) fails to load, and a process that has it mapped keeps a file "
-                                "the next builder recreates under the same name" % bad)
+                                "removes, replaces or writes the published library %s outside make_dll's temporary-name-then-rename "
+                                "protocol: another process that found it in the cache and has not yet opened it (loading is lazy) fails "
+                                "to load or loads a partial file, and a killed writer leaves a truncated library under the final name" % bad)
     if n_sites < 4:
         raise AnalysisError("R-C18-owner: only %d file-removing call sites found (anchor moved?)" % n_sites)
 
@@ -1101,7 +1211,15 @@ def rule_c15_builds(r):
     except AnalysisError as exc:
         msg = str(exc)
         if "clang failed" in msg:
-            r.violation("sasmodels/generate.py", "convert_type", "single-precision OpenCL source parses", 0, msg[:300])
+            import re
+            from .. import cfront as _cf
+            m = re.search(r"clang failed on (\S+): \[[\"'](.*?):(\d+):\d+: error: (.*?)[\"'],", msg)
+            if m:
+                r.violation(_cf.repo_path(m.group(2)), m.group(1), "single-precision OpenCL source of the model is accepted by the OpenCL C front end",
+                            int(m.group(3)), "clang -x cl rejects the converted source: %s - a declaration that escapes the keyword rewrite "
+                            "(SAS_DOUBLE) meets a converted signature, or a constant/keyword was mangled" % m.group(4))
+            else:
+                r.violation("sasmodels/generate.py", "convert_type", "single-precision OpenCL source parses", 0, msg[:300])
             return
         raise
     f64 = cfront.map_units("sa.rules.extra3:f32_unit", config="opencl")
